@@ -1,10 +1,10 @@
 ENGINES = [
     {"name": "gatebox", "path": "/verif/kit", "kind_free_text": "stateless DFS (CHESS-style, iterated deviation bound) over the environment schedule of the REAL engine running inside a testing/synctest bubble; plugins, store, clock and control calls are gates owned by the explorer",
-     "serves_properties": ["C01", "C04", "C05"]},
+     "serves_properties": ["C01", "C02", "C03", "C04", "C05", "C06", "C07", "C12"]},
     {"name": "seqbox", "path": "/verif/harness", "kind_free_text": "bounded-exhaustive enumeration / explicit-state BFS over real sequential cores against boring reference models",
-     "serves_properties": ["C20"]},
+     "serves_properties": ["C14", "C18", "C20"]},
     {"name": "crashbox", "path": "/verif/kit", "kind_free_text": "crash-point enumeration: every prefix of every explored history + real restart; syscall-level kill injection for file writes",
-     "serves_properties": []},
+     "serves_properties": ["C03"]},
 ]
 NOTES = "All checks run the real implementation from /repo's current working tree through a generated build overlay; see DESIGN.md."
 NOT_APPLICABLE = {}
@@ -32,3 +32,28 @@ TEXT = {
         "note": "Bounded depth; binary nodes draw children from depth <=2 subtrees; xerrors/grpc-status libraries are exercised as linked, not modelled.",
     },
 }
+
+_T = "stateless model checking of the real engine (environment-schedule DFS, iterated deviation bound) with an event-log monitor"
+TEXT.update({
+    "C02": {"engine": "gatebox", "technique": _T + "; store commits and in-transaction write failures are gates",
+            "level": FLOW_LEVEL + "Store commits are gates with answers {ok, fail}; the write of each source connector inside a flush transaction can be made to fail; every commit is snapshotted and decoded with the real stores. Oracle: (a) each plugin ack is preceded by a successful commit holding that position or a later one; (c) the stored position never moves backwards; (d) at every commit every record at or before the stored position has been confirmed by all destinations / the DLQ / filtered.",
+            "design_ref": "DESIGN.md section 6, C02", "note": FLOW_NOTE},
+    "C03": {"engine": "gatebox+crashbox", "technique": _T + " + crash-point enumeration: every store snapshot of every explored history is a crash image on which the engine is really restarted",
+            "level": FLOW_LEVEL + "Every prefix of every explored history is a crash instant: the log predicate (no plugin ack beyond the last durable position; nothing at or before it unhandled) is evaluated at every commit/ack event, and for every DISTINCT store snapshot the engine is really restarted (fresh services, Init, lifecycle Init) in a new bubble: the source must be opened exactly at the stored position, a running pipeline must be resumed, and every record after the position must be delivered again.",
+            "design_ref": "DESIGN.md section 6, C03", "note": FLOW_NOTE},
+    "C06": {"engine": "gatebox", "technique": _T + "; the stop request is a control action offered at every quiescent point",
+            "level": FLOW_LEVEL + "Healthy environment only (no fault answers, no answer slower than 5s virtual). The graceful stop (StopAndWait, or Stop + WaitPipeline) is issued at every quiescent point within the deviation bound. Oracle when it returns nil: every delivered record has its final outcome and was acked to its source before the source teardown, stored position == last acked record, every opened connector torn down exactly once; and the stop always returns.",
+            "design_ref": "DESIGN.md section 6, C06", "note": FLOW_NOTE},
+    "C07": {"engine": "gatebox", "technique": _T,
+            "level": FLOW_LEVEL + "Rejections by destinations, per-destination processors and the DLQ itself are explored in every topology incl. fan-out with partial rejection. Oracle: at most one confirmed DLQ copy per rejected record and run (a rejected write may be retried), DLQ record carries original, error and failing component, DLQ order = source order, a record whose DLQ write failed is never acked nor covered by the stored position. (Window arithmetic parity: see DESIGN.md, decided by the E2 part when present.)",
+            "design_ref": "DESIGN.md section 6, C07", "note": FLOW_NOTE},
+    "C12": {"engine": "gatebox", "technique": _T + "; the force stop is a control action offered at every quiescent point, with subsets of plugins never answering",
+            "level": FLOW_LEVEL + "Stop(force) is issued at every quiescent point within the bound, with each subset of {destination, DLQ} blocked (their gates are never granted). Oracle: WaitPipeline returns, final status Degraded, no automatic re-open of the source, C01 keeps holding, and a following Start re-opens the source at a position not past any unhandled record.",
+            "design_ref": "DESIGN.md section 6, C12", "note": FLOW_NOTE + " One listed known finding (force stop does not cancel a pending recovery in v1)."},
+    "C14": {"engine": "seqbox", "technique": "explicit-state BFS over the real orchestrator + services (state = operation history replayed on fresh instances), with single store-operation fault injection at every index",
+            "level": "Breadth-first search over API histories (create/update/delete/start/stop of pipelines, connectors, processors with valid and invalid arguments, API- and file-provisioned, stopped and running), depth 3 (quick) / 4 (thorough), deduplicated by a canonical dump; every call is also executed with its k-th store write/commit failing for every k. Oracles per transition: error => memory dump and stored key set identical to the pre-state; memory == fresh services initialised from the store; references mutually consistent; resources of running / file-provisioned pipelines untouched.",
+            "design_ref": "DESIGN.md section 6, C14", "note": "<=2 pipelines, 2 connectors, 2 processors; plugins are scripted; the lifecycle service is a stub that only flips the stored status; single-fault model (one failing store write per call). Two listed known findings."},
+    "C18": {"engine": "seqbox", "technique": "literal exhaustion of the IPv4 space and of IPv6 prefix structure through the real guard + bounded-exhaustive enumeration of resolver answers and policy pairs",
+            "level": "Refuse() is evaluated on every IPv4 address (thorough: all 2^32; quick: 4 addresses of every /24 plus every floor boundary +-2) in 8 carrier forms (4-byte, v4-mapped, NAT64, v4-translated, 6to4, Teredo client/server, v4-compatible) against an independent integer-range classifier of the documented refused floor; all 65536 leading IPv6 hextets x tails; every resolver answer sequence of length <=2/<=3 over a 14-class address alphabet x allowlists x ports through the real dialContext/dialControl (attempts observed at the dialer Control hook); every (processor policy, ceiling) pair over a 4-entry universe x secret refs x timeouts x sizes through ResolvePolicy.",
+            "design_ref": "DESIGN.md section 6, C18", "note": "No network: a dial attempt is observed at the Control hook and stopped before connect(2); redirect/proxy clauses rely on the single http.Client construction (Proxy nil, CheckRedirect) and are not re-enumerated."},
+})
